@@ -105,6 +105,25 @@ pub fn gen_call(rng: &mut Rng, key: (bool, u32), refuse: bool, total: Option<usi
                     for e in lists.iter_mut() { let sz = 1 + rng.below(6) as u8; *e = vec![ty, sz, first, addr]; first = first.wrapping_add(sz); }
                     return Call { req, id, nums, lists };
                 }
+                // a contiguous run of entries of DIFFERENT kinds behind one address: a bridge followed by its pool, single
+                // endpoints between ranges, ... (what a real routing table looks like); still carried as given, and still
+                // refused when there are too many, however they could be folded
+                if n >= 2 && rng.chance(1, 3) {
+                    let addr = rng.byte(); let mut first = 1 + rng.below(60) as u8;
+                    for e in lists.iter_mut() {
+                        let ty = rng.pick(&[2u8, 3, 0, 1, 2, 3]);
+                        let sz = if ty == 0 || ty == 2 { 1 } else { 1 + rng.below(6) as u8 };
+                        *e = vec![ty, sz, first, addr]; first = first.wrapping_add(sz);
+                    }
+                    // the same table listed from the top down (each entry ends where the previous one starts), or in pairs
+                    // swapped (a pool before its bridge)
+                    match rng.below(3) {
+                        0 => lists.reverse(),
+                        1 => { let mut i = 0; while i + 1 < lists.len() { lists.swap(i, i + 1); i += 2; } }
+                        _ => {}
+                    }
+                    return Call { req, id, nums, lists };
+                }
                 // related neighbours: consecutive EID ranges of one kind behind one physical address, duplicates,
                 // an entry repeated later — an encoder must carry the entries as given, not normalise them
                 if n >= 2 && rng.chance(1, 2) {
